@@ -247,34 +247,32 @@ func (s *ChattyStrategy) broadcastUpdatesOnly(ctx context.Context, prev, cur tmc
 	// Compare the count of set bits in the signature bitsets
 	// to determine if we need to broadcast updates for those.
 
-	prevPrevoteBitset := bitset.New(0)
 	var bs bitset.BitSet
+	var prevPrevotes, curPrevotes uint
 	for _, p := range prev.PrevoteProofs {
 		p.SignatureBitSet(&bs)
-		prevPrevoteBitset.InPlaceUnion(&bs)
+		prevPrevotes += bs.Count()
 	}
-	curPrevoteBitset := bitset.New(0)
 	for _, p := range cur.PrevoteProofs {
 		p.SignatureBitSet(&bs)
-		curPrevoteBitset.InPlaceUnion(&bs)
+		curPrevotes += bs.Count()
 	}
-	if curPrevoteBitset.Count() != prevPrevoteBitset.Count() {
+	if curPrevotes != prevPrevotes {
 		if !s.broadcastPrevotes(ctx, cur) {
 			return false
 		}
 	}
 
-	prevPrecommitBitset := bitset.New(0)
+	var prevPrecommits, curPrecommits uint
 	for _, p := range prev.PrecommitProofs {
 		p.SignatureBitSet(&bs)
-		prevPrecommitBitset.InPlaceUnion(&bs)
+		prevPrecommits += bs.Count()
 	}
-	curPrecommitBitset := bitset.New(0)
 	for _, p := range cur.PrecommitProofs {
 		p.SignatureBitSet(&bs)
-		curPrecommitBitset.InPlaceUnion(&bs)
+		curPrecommits += bs.Count()
 	}
-	if curPrecommitBitset.Count() != prevPrecommitBitset.Count() {
+	if curPrecommits != prevPrecommits {
 		if !s.broadcastPrecommits(ctx, cur) {
 			return false
 		}
